@@ -9,6 +9,8 @@ func flagFlow(c *Ctx, flagName string) { gen.CheckFlagBinding(c.Run, c.Prog, fla
 func genMap(c *Ctx) {
 	gen.CheckKinds(c.Run, c.Prog)
 	lookupTable(c)
+	// signatures are identical only if every type text carries the right qualifier
+	destinationTables(c)
 }
 
 func genGeneric(c *Ctx) {
